@@ -1023,6 +1023,110 @@ Proof.
   apply do_parse_breaks; [rewrite plain_bin; exact Hp|apply Hvb|exact H].
 Qed.
 
+(** * what "a rule asks for [x]" means, declaratively (no worklist, no [ChildGraph]) *)
+Section Req.
+Variable c : cmd.
+
+(** what the explicit occurrence [m] of the present argument [root] demands: the targets of the [requires] /
+    [requires_if] rules of [root] -- and of the arguments so reached -- whose predicate holds of [m].
+    (As in command.rs [unroll_arg_requires], the rules met along the way are evaluated against the occurrence of
+    the root argument.) *)
+Inductive req_by (m : marg) (root : id) : id -> Prop :=
+| RB_root a p y : find_arg c root = Some a -> In (p, y) (a_requires a) -> Relations.holds p m -> req_by m root y
+| RB_step x b p y : req_by m root x -> find_arg c x = Some b -> In (p, y) (a_requires b) -> Relations.holds p m ->
+    req_by m root y.
+
+(** a requirement rule of the definition asks for [x], given the explicit entries of [mt] *)
+Inductive rule_requires (mt : matcher) (x : id) : Prop :=
+| RRArg a : In a (c_args c) -> a_required a = true -> a_id a = x -> rule_requires mt x
+| RRGroup g : In g (c_groups c) -> g_required g = true -> (g_id g = x \/ In x (g_requires g)) -> rule_requires mt x
+| RRPresentGroup i ma g : In (i, ma) (explicit_entries mt) -> find_arg c i = None -> find_group c i = Some g ->
+    In x (g_requires g) -> rule_requires mt x
+| RRPresentArg i ma : In (i, ma) (explicit_entries mt) -> req_by ma i x -> rule_requires mt x.
+
+Definition ur_step (acc : list id * list id) (r : id) : list id * list id :=
+  let '(args, pushed) := acc in
+  let pushed := match find_arg c r with
+                | Some req => if negb (is_nil (a_requires req)) then a_id req :: pushed else pushed
+                | None => pushed end in
+  (args ++ [r], pushed).
+
+Lemma ur_step_sound : forall l args pushed args' pushed',
+  fold_left ur_step l (args, pushed) = (args', pushed') ->
+  args' = args ++ l /\ forall z, In z pushed' -> In z pushed \/ In z l.
+Proof.
+  induction l as [|r t IH]; intros args pushed args' pushed'; cbn [fold_left].
+  - intros H; injection H as <- <-. rewrite app_nil_r. split; [reflexivity|]. intros z Hz. left; exact Hz.
+  - unfold ur_step at 2. intros H. apply IH in H. destruct H as [-> Hp]. rewrite <- app_assoc. cbn [app].
+    split; [reflexivity|]. intros z Hz. destruct (Hp z Hz) as [H1|H1]; [|right; right; exact H1].
+    destruct (find_arg c r) as [rq|] eqn:Ef; [|left; exact H1].
+    destruct (negb (is_nil (a_requires rq))); [|left; exact H1].
+    destruct H1 as [H1|H1]; [|left; exact H1].
+    right; left. apply ErrorSound.find_arg_id in Ef. destruct Ef as [Ef _]. congruence.
+Qed.
+
+Lemma unroll_loop_sound (m : marg) (root : id) : forall fuel r_vec processed args out,
+  unroll_requires_loop c (fun r => if check_explicit_m (fst r) m then Some (snd r) else None) fuel r_vec processed args
+    = Some out ->
+  (forall x, In x r_vec -> x = root \/ req_by m root x) ->
+  (forall y, In y args -> req_by m root y) ->
+  forall y, In y out -> req_by m root y.
+Proof.
+  induction fuel as [|f IH]; intros r_vec processed args out; cbn [unroll_requires_loop]; [discriminate|].
+  destruct r_vec as [|a rest]; [intros H _ Ha; injection H as <-; exact Ha|].
+  destruct (mem_id a processed).
+  { intros H Hr Ha. eapply IH; [exact H| |exact Ha]. intros x Hx. apply Hr. right; exact Hx. }
+  destruct (find_arg c a) as [arg|] eqn:Efa.
+  2:{ intros H Hr Ha. eapply IH; [exact H| |exact Ha]. intros x Hx. apply Hr. right; exact Hx. }
+  set (l := filter_map (fun r : pred * id => if check_explicit_m (fst r) m then Some (snd r) else None) (a_requires arg)).
+  change (fold_left _ l (args, [])) with (fold_left ur_step l (args, [])).
+  destruct (fold_left ur_step l (args, [])) as [args' pushed'] eqn:Ef.
+  apply ur_step_sound in Ef. destruct Ef as [-> Hp].
+  intros H Hr Ha.
+  assert (Hl : forall y, In y l -> req_by m root y).
+  { intros y Hy. subst l. apply filter_map_in in Hy. destruct Hy as [[p y'] [Hin Hf]]. cbn [fst snd] in Hf.
+    destruct (check_explicit_m p m) eqn:Ece; [|discriminate Hf]. injection Hf as ->.
+    apply Relations.check_explicit_m_spec in Ece.
+    destruct (Hr a (or_introl eq_refl)) as [->|Hra].
+    - eapply RB_root; eassumption.
+    - eapply RB_step; eassumption. }
+  eapply IH; [exact H| |].
+  - intros x Hx. apply in_app_or in Hx. destruct Hx as [Hx|Hx]; [|apply Hr; right; exact Hx].
+    destruct (Hp x Hx) as [[]|Hx']. right. apply Hl. exact Hx'.
+  - intros y Hy. apply in_app_or in Hy. destruct Hy as [Hy|Hy]; [apply Ha; exact Hy|apply Hl; exact Hy].
+Qed.
+
+Theorem requirement_set_sound mt req x :
+  gather_requires c mt (required_graph c) = Some req -> In x req -> rule_requires mt x.
+Proof.
+  intros Hg Hx. destruct (gather_requires_in _ _ _ _ _ Hg Hx) as [Hb|[[i ma] [Hin [[a [rs [Hf [Hu Hrs]]]]|[g [Hf [Hfg Hxg]]]]]]].
+  - destruct (required_graph_in _ _ Hb) as [[a [H1 [H2 H3]]]|[g [H1 [H2 H3]]]].
+    + eapply RRArg; eassumption.
+    + eapply RRGroup; eassumption.
+  - cbn [fst snd] in *. eapply RRPresentArg; [exact Hin|].
+    destruct (ErrorSound.find_arg_id _ _ _ Hf) as [Hid _]. rewrite Hid in Hu.
+    unfold unroll_arg_requires in Hu.
+    eapply (unroll_loop_sound ma i _ _ _ _ _ Hu); [| |exact Hrs].
+    + intros y [<-|[]]. left; reflexivity.
+    + intros y [].
+  - cbn [fst] in *. eapply RRPresentGroup; eassumption.
+Qed.
+
+(** why [x] is reported missing, without reference to the validator's tables *)
+Definition missing_rule (mt : matcher) (x : id) : Prop :=
+  check_explicit mt x PIsPresent = false /\
+  (rule_requires mt x
+   \/ (exists a, In a (c_args c) /\ a_id a = x /\ ErrorSound.cond_required mt a)
+   \/ (exists p, In p (positionals c) /\ a_id p = x /\ is_set s_allow_missing_pos c = false)).
+
+Theorem missing_rule_sound mt x :
+  validate c mt = VErr EMissingRequiredArgument x -> missing_rule mt x.
+Proof.
+  intros Hv. destruct (validate_missing_sound _ _ _ Hv) as [req [Hr [Hn Hc]]]. split; [exact Hn|].
+  destruct Hc as [Hc|[Hc|Hc]]; [left; eapply requirement_set_sound; eassumption|right; left; exact Hc|right; right; exact Hc].
+Qed.
+End Req.
+
 (** * the kind names the cause: per kind, what [level_breaks] amounts to *)
 Section Justified.
 Variable c : cmd.
@@ -1056,7 +1160,7 @@ Definition kind_justified (e : error) : Prop :=
   match e_kind e with
   | EMissingRequiredArgument =>
       (* a matcher faithful to the line in which the named id is not explicitly present although a rule asks for it *)
-      exists m req, faithful c T m /\ gather_requires c m (required_graph c) = Some req /\ missing_cause c m req (e_arg e)
+      exists m, faithful c T m /\ missing_rule c m (e_arg e)
   | EArgumentConflict =>
       (* two accounted-for ids one of which declares a conflict with the other *)
       (accounted (e_arg e) /\ is_some (find_arg c (e_arg e)) = true /\
@@ -1158,7 +1262,7 @@ Proof.
         pose proof (Relations.assert_app_rel_wf c Happ) as W.
         destruct Hd as [[l [Hg Hin]]|[l [Hg Hin]]]; [left|right];
           apply (Relations.gather_direct_spec c W _ _ Hg); exact Hin.
-    + destruct (validate_missing_sound _ _ _ Hv) as [req [Hr Hm]]. exists m, req. repeat (split; [assumption|]); assumption.
+    + exists m. split; [exact Hf|]. apply missing_rule_sound. exact Hv.
 Qed.
 End Justified.
 
@@ -1242,7 +1346,10 @@ Lemma Breaks_spec c0 argv e : Breaks c0 argv e <->
 Proof. split; intros H; exact H. Qed.
 
 Lemma justified_missing c T e : kind_justified c T e -> e_kind e = EMissingRequiredArgument ->
-  exists m req, faithful c T m /\ gather_requires c m (required_graph c) = Some req /\ missing_cause c m req (e_arg e).
+  exists m, faithful c T m /\ check_explicit m (e_arg e) PIsPresent = false /\
+    (rule_requires c m (e_arg e)
+     \/ (exists a, In a (c_args c) /\ a_id a = e_arg e /\ ErrorSound.cond_required m a)
+     \/ (exists p, In p (positionals c) /\ a_id p = e_arg e /\ is_set s_allow_missing_pos c = false)).
 Proof. unfold kind_justified. intros H Hk. rewrite Hk in H. exact H. Qed.
 
 Lemma justified_conflict c T e : kind_justified c T e -> e_kind e = EArgumentConflict ->
@@ -1298,4 +1405,61 @@ Lemma justified_unknown c T e : kind_justified c T e -> unknown_kind (e_kind e) 
   (exists tok, In tok T /\ unknown_cause c tok e) \/ (exists names, suffix_of names T /\ e = help_walk c names).
 Proof.
   unfold kind_justified. intros H [Hk|Hk]; rewrite Hk in H; [left; exact H|exact H].
+Qed.
+
+(** * no spurious rejection, as the contrapositive of [kind_sound] joined with totality (C01): a line for which
+    no error is justified at any level is accepted *)
+Lemma do_parse_not_invalid c0 toks : valid c0 = true -> do_parse c0 toks <> OInvalidConfig.
+Proof.
+  intros Hv. unfold do_parse. rewrite Hv. cbn [negb].
+  destruct (get_matches_with _ _ _ _) as [st|e st|s]; [discriminate| |destruct s; discriminate].
+  destruct (is_set s_ignore_errors (build_self c0) && use_stderr (e_kind e)); discriminate.
+Qed.
+
+Theorem unbroken_accepted c0 argv : plain c0 = true ->
+  (forall b, valid (c0 <| c_bin_name := b |>) = true) -> valid c0 = true ->
+  (forall e, ~ Breaks c0 argv e) -> exists m, parse_top c0 argv = OOk m.
+Proof.
+  intros Hp Hvb Hv Hn.
+  pose proof (parse_top_total c0 argv Hp Hvb Hv) as Ht.
+  destruct (parse_top c0 argv) as [m|e|s| |] eqn:E; try contradiction.
+  - exists m. reflexivity.
+  - exfalso. apply (Hn e). apply kind_sound; assumption.
+  - exfalso. revert E. unfold parse_top.
+    destruct (is_set s_no_binary_name c0); [apply do_parse_not_invalid; exact Hv|].
+    destruct argv as [|bin rest]; [apply do_parse_not_invalid; exact Hv|].
+    destruct (c_bin_name c0); [apply do_parse_not_invalid; exact Hv|].
+    destruct (utf8_valid bin && negb (is_nil bin)); apply do_parse_not_invalid; [apply Hvb|exact Hv].
+Qed.
+
+Lemma rule_requires_spec c mt x : rule_requires c mt x <->
+  (exists a, In a (c_args c) /\ a_required a = true /\ a_id a = x)
+  \/ (exists g, In g (c_groups c) /\ g_required g = true /\ (g_id g = x \/ In x (g_requires g)))
+  \/ (exists i ma g, In (i, ma) (explicit_entries mt) /\ find_arg c i = None /\ find_group c i = Some g /\ In x (g_requires g))
+  \/ (exists i ma, In (i, ma) (explicit_entries mt) /\ req_by c ma i x).
+Proof.
+  split.
+  - intros [a H1 H2 H3|g H1 H2 H3|i ma g H1 H2 H3 H4|i ma H1 H2].
+    + left. exists a. auto.
+    + right; left. exists g. auto.
+    + right; right; left. exists i, ma, g. auto.
+    + right; right; right. exists i, ma. auto.
+  - intros [[a [H1 [H2 H3]]]|[[g [H1 [H2 H3]]]|[[i [ma [g [H1 [H2 [H3 H4]]]]]]|[i [ma [H1 H2]]]]]].
+    + eapply RRArg; eassumption.
+    + eapply RRGroup; eassumption.
+    + eapply RRPresentGroup; eassumption.
+    + eapply RRPresentArg; eassumption.
+Qed.
+
+Lemma req_by_spec c m root y : req_by c m root y <->
+  (exists a p, find_arg c root = Some a /\ In (p, y) (a_requires a) /\ Relations.holds p m)
+  \/ (exists x b p, req_by c m root x /\ find_arg c x = Some b /\ In (p, y) (a_requires b) /\ Relations.holds p m).
+Proof.
+  split.
+  - intros [a p y' H1 H2 H3|x b p y' H1 H2 H3 H4].
+    + left. exists a, p. auto.
+    + right. exists x, b, p. auto.
+  - intros [[a [p [H1 [H2 H3]]]]|[x [b [p [H1 [H2 [H3 H4]]]]]]].
+    + eapply RB_root; eassumption.
+    + eapply RB_step; eassumption.
 Qed.
